@@ -43,9 +43,9 @@ REACH = [
     "insights/core/serde.py::Hydration.dehydrate",
 ]
 PLAN = {
-    "quick": {"shards": 8, "cases": 150, "timeout_s": 900, "min_evaluations": 5000,
-              "min_counters": {"providers_returned": 800, "contents_read": 800, "deny_runs": 60, "audit_events_seen": 3000,
-                               "files_persisted": 200}},
+    "quick": {"shards": 8, "cases": 300, "timeout_s": 900, "min_evaluations": 9000,
+              "min_counters": {"providers_returned": 1600, "contents_read": 1600, "deny_runs": 120, "audit_events_seen": 6000,
+                               "files_persisted": 400}},
     "thorough": {"shards": 16, "cases": 700, "timeout_s": 3300, "min_evaluations": 60000,
                  "min_counters": {"providers_returned": 12000}},
 }
